@@ -103,6 +103,133 @@ CHECKS = {
         "note": "Trusted: ast, sa.effects, sa.paths.",
         "technique": "static analysis: typestate/guard dominance over structured paths + who-may-write",
     },
+    "C01": {
+        "text": "Decides the ISA clauses visible in the code's shape for all operands at once: a normal form of "
+                "behavior() per in-scope class (operator, operand order, signedness, shift mask, zero-divisor result, "
+                "load/store width and extension, pc target with bit 0 cleared and 32-bit wrap, counters) is compared "
+                "row by row with an ISA table encoded in the checker (45 rows); immediate widths by bit-slice "
+                "abstract interpretation of the 7 format constructors; x0 by who-may-write over all 46 register "
+                "store sites plus index-set folding of the single guarded writer; 32-bit wrap by classifying every "
+                "stored value as UInt32-typed; operand-before-destination order (aliasing); one pc advance after "
+                "behavior(); ecall service table against the documented help table. Numeric results of fixedint "
+                "operators on particular values are library semantics and not re-derived.",
+        "ref": "DESIGN.md section 2, C01",
+        "note": "Trusted: ast, the ISA table in sa/rules/c01.py, sa.rvnf cast-erasure rules, fixedint semantics. "
+                "CSR*/FENCE/EBREAK out of scope as in the property.",
+        "technique": "static analysis: normal-form extraction vs ISA table + bit-slice abstract interpretation + who-may-write",
+    },
+    "C02": {
+        "text": "Decides sibling agreement of the two implementations of each of the 45 in-scope instruction classes "
+                "without running either: behavior() and the composition access_register_file -> alu_compute -> "
+                "memory_access -> write_back (under the class's control signals and the checked stage multiplexers) "
+                "reduce to the same normal form incl. 32-bit normalisation of pc targets; plus the interlock "
+                "interface per class, structural constants of the pipeline (stage chain, write-before-read order, "
+                "interlock depth, flush/stall pairing, ecall drain window, redirect targets), stage effect "
+                "confinement from interprocedural write summaries, instruction counting, and the broad exception "
+                "wrapper. Equality of whole runs under every stall/flush schedule is dynamic and not decided.",
+        "ref": "DESIGN.md section 2, C02",
+        "note": "Trusted: ast, sa.rvnf, sa.effects, fixedint semantics. The composition hard-codes the stage muxes, "
+                "which R02.mux checks as shapes of the stage code.",
+        "technique": "static analysis: sibling cross-check by normal forms + effect confinement + constant agreement",
+    },
+    "C04": {
+        "text": "Decides: agreement of grammar mnemonics / instruction_map / pseudo handlers; exhaustive and well-typed "
+                "constructor dispatch for all 54 classes; every expansion template is a sentence of the grammar for a "
+                "real instruction (f-string aligned against the pyparsing alternatives evaluated from the AST); the "
+                "documented expansion group per pseudo-instruction; single binding of in-line labels under expansion; "
+                "lock-step of the two address counters and the linear form label+offset-address; lexical rules "
+                "(caseless mnemonics, ABI table against the calling convention, number syntax by DFA equality). "
+                "Label addresses by value for arbitrary programs are not enumerated.",
+        "ref": "DESIGN.md section 2, C04",
+        "note": "Trusted: ast, sa.ppgram model of the pyparsing subset, sa.align.",
+        "technique": "static analysis: grammar IR from AST + template alignment + table agreement + linear forms",
+    },
+    "C05": {
+        "text": "Decides the layout table row by row (element size recorded for name[i], stride, writer, cast per "
+                "declaration type; word alignment; direct preloads; string terminator; .zero reservation), clone "
+                "agreement of the three lui/addi split copies and their constants against the I-type geometry "
+                "(carry exactly at the 12-bit sign boundary), the linear form of name[i], start address and phase "
+                "order. 'li rd, c leaves c mod 2^32 for every c' is value arithmetic argued only through these "
+                "constants and R01.immw.",
+        "ref": "DESIGN.md section 2, C05",
+        "note": "Trusted: ast, consteval, fixedint width reduction.",
+        "technique": "static analysis: per-row table agreement + clone detection + constant folding",
+    },
+    "C06": {
+        "text": "Decides: the instruction register is only loaded by decoding memory[pc] under pc <= max_pc (self-"
+                "modifying stores take effect; halting tied to max_pc); two cycles and one count per instruction with "
+                "who-may-write for the counters; an operator table for the 13 opcodes (operator, operand order, "
+                "destination, BRZ condition/target); UInt16/UInt12 typing of everything stored into accu/pc; total "
+                "decode and field widths (shared with C19). Numeric results per opcode and wrap-around at the "
+                "boundaries are value-level and not decided.",
+        "ref": "DESIGN.md section 2, C06",
+        "note": "Trusted: ast, operator table in sa/rules/c06.py, fixedint semantics.",
+        "technique": "static analysis: def-use/path rules + operator-table normal forms + who-may-write",
+    },
+    "C08": {
+        "text": "Decides that the flag gates the decode interlock and nothing else: one reader (the `if` around the "
+                "hazard comparison), whose body only binds the stall signal; register read, destination lookup and "
+                "the returned latch outside it; the constructor parameter reaches it unmodified through all hops "
+                "(incl. the web entry point); WB before ID; ID writes nothing and only WB writes registers (effect "
+                "summaries). Stale-read semantics by value and nop-padding equivalence are dynamic and not decided.",
+        "ref": "DESIGN.md section 2, C08",
+        "note": "Trusted: ast, sa.effects.",
+        "technique": "static analysis: single-reader + parameter-flow + effect confinement",
+    },
+    "C14": {
+        "text": "Decides the print/parse round trip structurally for every operand combination: each format's "
+                "__repr__ template parses as exactly one alternative of the instruction grammar; every hole's text "
+                "language (decimal/hex int, x<n>) is included in the language of the token it lands on and in what "
+                "int(.,0) accepts (DFA inclusion); and printed field -> results name -> constructor keyword -> stored "
+                "field (through the parser's dispatch branch and the super().__init__ chains) is the identity for "
+                "all 53 mnemonics; J-type absolute/relative conversion by linear forms; listing = str() by address. "
+                "Value identity of immediates rests on idempotent sign extension (R01.immw).",
+        "ref": "DESIGN.md section 2, C14",
+        "note": "Trusted: ast, sa.ppgram, sa.align. FENCE excluded by the property.",
+        "technique": "static analysis: template/grammar alignment + DFA language inclusion + binding composition",
+    },
+    "C15": {
+        "text": "Decides: for every int() conversion of a token, inclusion of the token's regular language (from the "
+                "pyparsing grammar evaluated from the AST) in CPython's int() literal language for that base incl. "
+                "the 4300-digit limit, unless guarded by except ValueError -> parser error; every raise in the call-"
+                "graph closure of both parse() methods is a sanctioned type (tabled exemptions with checked "
+                "preconditions); line numbers derive from enumerate(splitlines())+1 at all 19 construction sites; "
+                "guarded dictionary lookups; broad run-time wrapper reporting the failing stage's input latch; "
+                "front-end classification. IndexError/TypeError sites of ordinary subscripts are not enumerated.",
+        "ref": "DESIGN.md section 2, C15",
+        "note": "Trusted: ast, CPython literal syntax as modelled, sa.ppgram, sa.effects closure.",
+        "technique": "static analysis: regular-language inclusion + raise-site enumeration over the call graph + def-use",
+    },
+    "C17": {
+        "text": "Decides: ascending order by construction (iteration over sorted(..)), agreement between the width each "
+                "formatter call states and the fixed-width type of the value, closed set of formatter call sites, "
+                "one width throughout _memory_repr, and the formatter's constants folded for each width in use "
+                "(mask by bit-slice evaluation, sign threshold/offset, field widths, grouping, tuple order). Digit "
+                "strings for particular values come from str.format and are not re-derived.",
+        "ref": "DESIGN.md section 2, C17",
+        "note": "Trusted: ast, consteval, bitslice, str.format semantics.",
+        "technique": "static analysis: constant folding per width + call-site enumeration",
+    },
+    "C18": {
+        "text": "Decides: the backing dict is touched at exactly two places, both behind the optional wrap and the "
+                "range check on every path; little-endian composition/decomposition evaluated in the bit-slice "
+                "domain with symbolic value and cells for every cell count; per-width accessor table; both memory "
+                "configurations folded from the constructor calls; zero default. Last-writer-wins over histories is "
+                "dict semantics and not separately decided.",
+        "ref": "DESIGN.md section 2, C18",
+        "note": "Trusted: ast, bitslice, consteval, dict semantics.",
+        "technique": "static analysis: who-may-access + path ordering + bit-slice abstract interpretation",
+    },
+    "C19": {
+        "text": "Decides every row of the TOY encode/decode tables and the field arithmetic symbolically: 13 "
+                "constructor constants, the from_integer chain (shown total over all 16 opcodes), mnemonic map, "
+                "parser lists and micro-program table describe one assignment; opcode/address fields occupy bits "
+                "[12,16)/[0,12) in both directions (bit-slice domain) -- decode(encode(i)) == i and a total decode "
+                "over all 2^16 words without enumerating them; assembler placement rules as shapes.",
+        "ref": "DESIGN.md section 2, C19",
+        "note": "Trusted: ast, consteval, bitslice.",
+        "technique": "static analysis: table agreement + bit-slice abstract interpretation",
+    },
 }
 
 NOT_APPLICABLE = {f"C{i:02d}": UC for i in range(1, 21)}
